@@ -468,6 +468,84 @@ def gen_ttl_zero(rng, tier):
     return {"header": header, "ops": ops}
 
 
+DUR_MAX_NS = 2 ** 64 * 10 ** 9 - 1               # `Duration::MAX` in nanoseconds
+
+
+def _ttl_ticks(word, us):
+    """the header word `ttl=<word>` in clock ticks: `max` is `Duration::MAX`, anything else n ticks (any natural n)"""
+    return DUR_MAX_NS // (1000 if us else 1000000) if word == "max" else int(word)
+
+
+# TTLs (in nanoseconds) that are ordinary configuration values for a response that must "never" expire - most of
+# them beyond what `Instant + ttl` can represent (on Linux: seconds beyond i64::MAX - now), all of them beyond every
+# clock reading of a case. None of them may ever expire an entry.
+_YEAR_NS = 365 * 86400 * 10 ** 9
+_HUGE_NS = [100 * _YEAR_NS, 292 * _YEAR_NS, 293 * _YEAR_NS, 2 ** 63 - 1, 2 ** 63, 2 ** 63 + 1, 2 ** 64 - 1, 2 ** 64, 2 ** 64 + 1,
+            10 ** 6 * _YEAR_NS, (2 ** 31) * 10 ** 9, (2 ** 32) * 10 ** 9, (2 ** 62) * 10 ** 9,
+            (2 ** 63 - 100000) * 10 ** 9, (2 ** 63 - 2000) * 10 ** 9, (2 ** 63 - 1001) * 10 ** 9, (2 ** 63 - 1000) * 10 ** 9,
+            (2 ** 63 - 999) * 10 ** 9, (2 ** 63 - 1) * 10 ** 9, (2 ** 63) * 10 ** 9, (2 ** 63 + 1) * 10 ** 9,
+            (2 ** 64 - 1) * 10 ** 9, DUR_MAX_NS - 999999, DUR_MAX_NS]
+
+
+def _huge_ttl(rng, us):
+    """-> header word for a huge TTL: `max` (`Duration::MAX`) or a number of ticks around 2^63 ns / 2^64 ns / centuries /
+    2^63 s (where `Instant + ttl` stops being representable) / `u64::MAX` s"""
+    if rng.random() < 0.35:
+        return "max"
+    ns = rng.choice(_HUGE_NS)
+    if rng.random() < 0.3:
+        ns = max(1, min(DUR_MAX_NS, ns + rng.choice([-1, 1]) * rng.choice([1, 999, 10 ** 6, 10 ** 9, 3 * 10 ** 9, 10 ** 12])))
+    return "%d" % max(1, ns // (1000 if us else 1000000))
+
+
+def gen_ttl_huge(rng, tier):
+    """`ttl(Duration::MAX)` and other TTLs no clock reading can exceed ("never expires"): every policy, private and shared
+    stores, 1 ms and 1 us ticks; keys are stored, the clock advances by nothing / a tick / minutes / years, the keys are
+    requested again (hits unless the policy evicted them), new keys force evictions, concurrent misses overwrite."""
+    policy = rng.choice(["lru", "lfu", "fifo"])
+    mx = rng.choice([1, 2, 2, 3, 4])
+    us = rng.random() < 0.3
+    shared = rng.choice([0, 0, 1, 2])
+    extra, svcw, listen = _entry(rng, shared)
+    header = "cache max=%d%s ttl=%s shared=%d" % (mx, _pol(rng, policy), _huge_ttl(rng, us), shared) + extra + (" tick=us" if us else "")
+    nkeys = mx + rng.choice([0, 0, 1, 2])
+    ops = []
+    c = 0
+    stored = []
+    far = False
+    for _ in range(rng.randint(4, 14)):
+        c += 1
+        key = rng.choice(stored[-3:]) if stored and rng.random() < 0.6 else rng.randint(1, nkeys)
+        out = "ok" if rng.random() < 0.9 else rng.choice(["err1", "panic"])
+        lat = 0 if us or rng.random() < 0.8 else rng.randint(1, 3)
+        ops.append("arrive %d key=%d%s inner=%d:%s" % (c, key, svcw(), lat, out))
+        if lat == 0 and rng.random() < 0.9:
+            ops.append("poll %d" % c)
+            if out == "ok":
+                stored.append(key)
+        _probe(rng, ops, listen)
+        r = rng.random()
+        if r < 0.35:
+            pass
+        elif r < 0.7:
+            ops.append("adv %d" % rng.choice([1, 2, 10, 1000, 60000]))
+        elif not far and rng.random() < 0.3:      # a year of ticks, at most once per case: the virtual clock (u64 ns,
+            far = True                            # 584 years) is shared by the 2000 cases of a harness process
+            ops.append("adv %d" % (365 * 86400 * (1000000 if us else 1000)))
+        else:                                     # an hour, a day
+            ops.append("adv %d" % (rng.choice([3600, 86400]) * (1000000 if us else 1000)))
+        if rng.random() < 0.15:
+            ops.append("settle")
+    ops.append("settle")
+    for k in range(1, nkeys + 1):                 # read-back
+        c += 1
+        ops.append("arrive %d key=%d%s inner=0:ok" % (c, k, svcw()))
+        ops.append("poll %d" % c)
+    ops.append("settle")
+    _probe(rng, ops, listen, 1.0)
+    return {"header": header, "ops": ops}
+
+
 def gen(rng, tier):
     r0 = rng.random()
     if r0 < 0.08:
@@ -480,6 +558,8 @@ def gen(rng, tier):
         return gen_big_cache(rng, tier)
     if r0 < 0.38:
         return gen_ttl_zero(rng, tier)
+    if r0 < 0.41:
+        return gen_ttl_huge(rng, tier)
     policy = rng.choice(["lru", "lfu", "fifo"])
     mx = rng.choice([1, 1, 2, 2, 2, 3, 3, 4])
     if rng.random() < 0.02:
@@ -490,12 +570,16 @@ def gen(rng, tier):
     us = rng.random() < 0.08                     # tick = 1 us: the same random walk at microsecond instants (inner latency 0,
     if us and ttl is not None:                   # completions are timed by late polls)
         ttl = _us_ttl(rng, lo=0)
+    ttlw = None if ttl is None else "%d" % ttl   # the header word
+    if ttl is not None and rng.random() < 0.06:
+        ttlw = _huge_ttl(rng, us)                # `Duration::MAX` / centuries / 2^63 s: never expires
+        ttl = None                               # (for aiming the advances below: nothing to aim at)
     shared = rng.choice([0, 0, 1, 2])
     nkeys = max(1, min(6, mx + rng.choice([-1, 0, 1, 1, 2])))
     keys = list(range(1, nkeys + 1))
     extra, svcw, listen = _entry(rng, shared, private_multi=True)
     dflt = rng.random() < 0.03                   # no `max_size` / `eviction_policy` call: the builder's defaults (100, LRU)
-    header = ("cache" + ("" if dflt else " max=%d%s" % (mx, _pol(rng, policy))) + ("" if ttl is None else " ttl=%d" % ttl)
+    header = ("cache" + ("" if dflt else " max=%d%s" % (mx, _pol(rng, policy))) + ("" if ttlw is None else " ttl=%s" % ttlw)
               + " shared=%d" % shared + extra + (" tick=us" if us else ""))
     ops = []
     now = 0
@@ -588,7 +672,7 @@ def _cfg(case):
     cfg = kvs(case["header"])
     mx = int(cfg.get("max", "100"))              # no `max=` word: `max_size` is not called, the builder's default applies
     policy = cfg.get("policy", "lru")            # likewise (`EvictionPolicy::default()`)
-    ttl = int(cfg["ttl"]) if "ttl" in cfg else None      # `ttl=0` is a TTL of zero, not "no TTL"
+    ttl = _ttl_ticks(cfg["ttl"], cfg.get("tick") == "us") if "ttl" in cfg else None      # `ttl=0` is a TTL of zero, not "no TTL"
     cap = mx if mx >= 1 else (100 if policy == "lru" else 1)
     return mx, cap, policy, ttl
 
@@ -945,6 +1029,8 @@ def transitions(case, lines, meta=None):
     caller = {}
     inflight = {}        # serial -> ((store, key), position of the call)
     handles = {}         # (service, handle) -> number of calls made on it
+    year = 365 * 86400 * (1000000 if us else 1000)
+    huge = 100 * year    # a TTL no clock reading of a case exceeds
     if "max" not in hdr:
         tags.append("builder-default-max")
     if "policy" not in hdr:
@@ -977,6 +1063,12 @@ def transitions(case, lines, meta=None):
                 tags.append("private-cross-miss")   # fresh in the store of another service of the same plain layer value
             if ttl == 0 and snap is not None:
                 tags.append("ttl0-hit-same-instant" if e["hit"] and e["t"] == snap[1] else "ttl0-miss-later" if not e["hit"] and e["t"] > snap[1] else "ttl0-other")
+            if ttl is not None and ttl >= huge and snap is not None and e["hit"]:
+                tags.append("unreachable-ttl-hit")
+                if hdr.get("ttl") == "max":
+                    tags.append("ttl-max-hit")
+                if e["t"] - snap[1] >= year:
+                    tags.append("unreachable-ttl-hit-after-a-year")
             if e["hit"]:
                 tags.append("hit")
                 if snap is not None and ttl is not None and e["t"] - snap[1] == ttl:
@@ -1053,7 +1145,8 @@ SPECS = {
                             "lfu-tie", "lfu-candidates-pruned", "expired-removed-not-newest", "evict-after-expiry-restore",
                             "us-miss-expired-by-less-than-1ms", "us-hit-at-ttl-not-whole-ms", "evict-from-more-than-8-lru",
                             "evict-from-more-than-8-lfu", "evict-from-more-than-8-fifo",
-                            "ttl0-hit-same-instant", "ttl0-miss-later", "private-cross-miss", "handle-reused", "service-value-reused",
+                            "ttl0-hit-same-instant", "ttl0-miss-later", "unreachable-ttl-hit", "ttl-max-hit", "unreachable-ttl-hit-after-a-year",
+                            "private-cross-miss", "handle-reused", "service-value-reused",
                             "layer-clone-requested", "listeners-probed", "eviction-listener-fired", "builder-default-max", "builder-default-policy",
                             "builder-via-new", "builder-via-default", "evict-at-default-max"],
         "model_modules": ["TR.Model.Cache", "TR.Lemmas.Cache", "TR.Lemmas.CacheFifo", "TR.Lemmas.CacheTtl", "TR.Lemmas.CacheLayer",
@@ -1080,6 +1173,9 @@ SPECS = {
                 "builder's default of 100 entries, the 101st key evicts). "
                 "TTL 0 (`Duration::ZERO`, a TTL, not 'no TTL') is a generated value: 8% of the TTLs of the random walks, 7% of the "
                 "microsecond TTLs, and 3% dedicated scenarios (requests at the same instant and 1 tick / many ticks later, ms and us). "
+                "Unreachable TTLs ('never expires') are generated values: 6% of the TTLs of the random walks and 3% dedicated scenarios "
+                "use `ttl=max` (Duration::MAX) or tick counts around 2^63 ns, 2^64 ns, centuries, 2^63 s -1000..+1 s (where Instant + ttl "
+                "stops being representable), u64::MAX s; advances of ticks, minutes, a day, a year; ms and us ticks. "
                 "Construction paths and handles, in every scenario family: 2-3 services built from ONE layer value, lazily, some from a "
                 "clone of the layer value taken after other services were used (`svc=k`, `lc=1`) - a SharedCacheLayer "
                 "(SharedCacheLayer::builder() or CacheLayer::shared()) must serve them from one store, a plain CacheLayer (40% of the "
@@ -1098,7 +1194,8 @@ SPECS = {
                       "stores_step_independently, request_on_other_service_leaves_store_alone, poll_of_other_service_leaves_store_alone, "
                       "shared_layer_one_store, private_layer_store_per_service, size_bounded_per_store, hit_is_latest_per_store, "
                       "builder_defaults_ok, read_is_two_phase, promote_then_remove_is_remove, two_phase_read_is_one_phase, "
-                      "present_unexpired_key_hits, present_key_hits_without_ttl, absent_key_misses, echo_determines_request, "
+                      "present_unexpired_key_hits, present_key_hits_without_ttl, present_key_hits_while_clock_within_ttl, "
+                      "present_key_hits_while_advances_within_ttl, max_ttl_never_expires, absent_key_misses, echo_determines_request, "
                       "log_bookkeeping, call_key_is_request_key, spec_map_is_last_ok_completion, "
                       "hit_returns_last_stored_response_of_its_key, hit_has_request_in_log, miss_returns_own_response, "
                       "lru_order_is_log_recency, victim_lru_log, one_result_per_caller, insertion_is_unique, "
@@ -1117,7 +1214,8 @@ SPECS = {
                       "slot of the expired entry it read (front, middle or back; the others keep their order), or appends a newly created "
                       "entry at the back (after popping the front when full), so after any interleaving of expiry-removals and re-stores the "
                       "victim is the front of the queue = the entry stored longest without interruption; with a TTL of zero a stored key is served "
-                      "at the instant of its store only and misses as soon as it has any age (a different configuration from 'no TTL'); the "
+                      "at the instant of its store only and misses as soon as it has any age (a different configuration from 'no TTL'); with a TTL "
+                      "the clock has not reached (ttl >= sum of the advances; Duration::MAX, 2^63 s, ...) a present key always hits, as without a TTL; the "
                       "stores of several services built from a plain CacheLayer value are independent (an operation steps the store it "
                       "concerns and leaves every other store exactly as it was; each store satisfies every statement above on its own), a "
                       "shared layer has one store that sees the whole history. The ghost maps are functions of the event log the correspondence check "
